@@ -892,6 +892,7 @@ func c12worker(args []string) int {
 func c12RunWorker(self string, sc *c12Scenario, budget time.Duration, minBound, maxBound int, kill time.Duration) (*c12ScnResult, string) {
 	cmd := exec.Command("bash", "-c", `ulimit -v 8000000; exec "$0" "$@"`, self, "c12worker", sc.Name, fmt.Sprintf("%.1f", budget.Seconds()), strconv.Itoa(minBound), strconv.Itoa(maxBound))
 	cmd.SysProcAttr = &syscall.SysProcAttr{Setpgid: true}
+	cmd.Env = append(os.Environ(), sc.Env...)
 	var out, errb bytes.Buffer
 	cmd.Stdout, cmd.Stderr = &out, &errb
 	if err := cmd.Start(); err != nil {
@@ -1411,6 +1412,19 @@ func c12Replay(path string) int {
 	if sc == nil {
 		fmt.Fprintf(os.Stderr, "c12: unknown scenario %q\n", v.Detail.Scenario)
 		return 2
+	}
+	if len(sc.Env) > 0 && os.Getenv("C12_REPLAY_ENV") == "" {
+		// the exploration settings are read at start-up: re-execute with the scenario's own
+		cmd := exec.Command(os.Args[0], os.Args[1:]...)
+		cmd.Env = append(append(os.Environ(), sc.Env...), "C12_REPLAY_ENV=1")
+		cmd.Stdout, cmd.Stderr = os.Stdout, os.Stderr
+		if err := cmd.Run(); err != nil {
+			if ee, ok := err.(*exec.ExitError); ok {
+				return ee.ExitCode()
+			}
+			return 2
+		}
+		return 0
 	}
 	c12SetLeaf()
 	defer os.RemoveAll(filepath.Join(scn.ScratchRoot, fmt.Sprintf("lsmc-%d", os.Getpid())))
